@@ -35,13 +35,16 @@ def write_ops(tests, path, conf="mc"):
     return len(tests)
 
 
-def state_cover_tests(work, depth):
+def state_cover_tests(work, depth, warm=False):
     """environment histories of all behaviours of at most `depth` operations, as TLC generates them (measured: TLC evaluates
     the printing invariant for nearly every generated successor, so this is one history per explored TRANSITION, not per
-    distinct state); de-duplicated, and histories that are a prefix of another one are dropped."""
-    cfg = "MC_YK_emit%d.cfg" % depth
-    base = open(os.path.join(work, "MC_YK_intended.cfg")).read()
-    base = re.sub(r"MaxHist = \d+", "MaxHist = %d" % depth, base).replace("INVARIANT TypeOK", "INVARIANT TypeOK\nINVARIANT EmitTest")
+    distinct state); de-duplicated, and histories that are a prefix of another one are dropped.
+    warm: 1 = start from YuniKorn!InitWarm (a placeholder already allocated; the history starts with the 5 operations that
+    lead there), 2 = InitWarm2 (in addition a smaller real task of the group is waiting), and explore `depth` further operations."""
+    cfg = "MC_YK_emit%s%d.cfg" % ("w%d" % warm if warm else "", depth)
+    base = open(os.path.join(work, {0: "MC_YK_intended.cfg", 1: "MC_YK_warm.cfg", 2: "MC_YK_warm2.cfg"}[int(warm)])).read()
+    total = depth + WARM_PREFIX[int(warm)]
+    base = re.sub(r"MaxHist = \d+", "MaxHist = %d" % total, base).replace("INVARIANT TypeOK", "INVARIANT TypeOK\nINVARIANT EmitTest")
     open(os.path.join(work, cfg), "w").write(base)
     rc, out = C.tlc(work, "MC_YK.tla", cfg, workers=1, timeout=1700, heap="6g")
     if "No error has been found" not in out:
@@ -49,13 +52,16 @@ def state_cover_tests(work, depth):
     gen, dist = C.tlc_stats(out)
     uniq = sorted(set(json.dumps(t, sort_keys=True) for t in _tests(out)))
     tests = [json.loads(u) for u in uniq]
-    full = [t for t in tests if len(t) == depth]
+    full = [t for t in tests if len(t) == total]
     prefixes = set()
     for t in full:
         for i in range(1, len(t)):
             prefixes.add(json.dumps(t[:i], sort_keys=True))
-    keep = full + [t for t in tests if len(t) < depth and json.dumps(t, sort_keys=True) not in prefixes]
+    keep = full + [t for t in tests if len(t) < total and json.dumps(t, sort_keys=True) not in prefixes]
     return keep, gen, dist
+
+
+WARM_PREFIX = {0: 0, 1: 5, 2: 6}   # operations in the history the (warm) initial state starts with
 
 
 def simulated_tests(work, num, seed, depth=28):
